@@ -1,6 +1,7 @@
 (* C02 — soundness, the mechanised parts (partial by nature: KZG knowledge
-   binding, Fiat-Shamir in the random-oracle model and the bivariate
-   beta-gamma step are assumptions, see DESIGN.md). *)
+   binding and Fiat-Shamir in the random-oracle model are assumptions, see
+   DESIGN.md; the beta-gamma step of the permutation argument is proved in
+   deterministic counting form at the end of this file). *)
 From Coq Require Import ZArith List Bool Arith Permutation.
 From PlonkV Require Import Base.Fr Base.FrFacts Gates.Gate Gates.CS Gates.CSFacts Gates.Separation
   Alg.Poly Alg.RootBound Protocol.Kzg.
@@ -50,3 +51,28 @@ Theorem C02_row_evaluator_exact : forall rows asg, satb rows asg = true <-> sat 
 Proof. exact satb_spec. Qed.
 Check C02_row_evaluator_exact : forall rows asg, satb rows asg = true <-> sat rows asg.
 Print Assumptions C02_row_evaluator_exact.
+
+(* the beta-gamma step of the permutation argument, deterministic form: for ANY finite set of positions with
+   pairwise distinct labels, if the grand product closes on a grid of more than N^2 betas x more than N gammas
+   then the wire values are invariant under the permutation.  (Converse of C05_grand_product_closes.) *)
+From PlonkV Require Import Alg.PermArg Alg.PermSound.
+Theorem C02_permutation_argument_sound : forall (PR : PrimeR) (pos : Type) (ps : list pos) (sigma : pos -> pos) (ident wv : pos -> Fr) (Bs Gs : list Fr),
+  NoDup ps -> Permutation (map sigma ps) ps ->
+  (forall p q, In p ps -> In q ps -> ident p = ident q -> p = q) ->
+  (Z.of_nat (S (length ps)) <= r)%Z ->
+  NoDup Bs -> (length ps * length ps < length Bs)%nat ->
+  NoDup Gs -> (length ps < length Gs)%nat ->
+  (forall beta gamma, In beta Bs -> In gamma Gs ->
+     fprod (map (numerator pos ident wv beta gamma) ps) = fprod (map (denominator pos sigma ident wv beta gamma) ps)) ->
+  forall p, In p ps -> wv (sigma p) = wv p.
+Proof. intros PR pos ps sigma ident wv Bs Gs H1 H2 H3. exact (closing_forces_copies pos ps sigma ident wv H1 H2 H3 Bs Gs). Qed.
+Check C02_permutation_argument_sound : forall (PR : PrimeR) (pos : Type) (ps : list pos) (sigma : pos -> pos) (ident wv : pos -> Fr) (Bs Gs : list Fr),
+  NoDup ps -> Permutation (map sigma ps) ps ->
+  (forall p q, In p ps -> In q ps -> ident p = ident q -> p = q) ->
+  (Z.of_nat (S (length ps)) <= r)%Z ->
+  NoDup Bs -> (length ps * length ps < length Bs)%nat ->
+  NoDup Gs -> (length ps < length Gs)%nat ->
+  (forall beta gamma, In beta Bs -> In gamma Gs ->
+     fprod (map (numerator pos ident wv beta gamma) ps) = fprod (map (denominator pos sigma ident wv beta gamma) ps)) ->
+  forall p, In p ps -> wv (sigma p) = wv p.
+Print Assumptions C02_permutation_argument_sound.
